@@ -1305,6 +1305,8 @@ func concretise(st Structure, kind string, r *rand.Rand, bits int) (*Concretisat
 	widths := make([]uint64, m)
 	style := pick(r, concStyles)
 	var base uint64
+	var gaps []uint64 // kind keygaps: unused space before cell c (c >= 1)
+	keygaps := false
 	periodic := uint64(0)
 	switch kind {
 	case "tiny": // every non-point cell a handful of values: array chunks
@@ -1369,6 +1371,11 @@ func concretise(st Structure, kind string, r *rand.Rand, bits int) (*Concretisat
 			tot += w
 		}
 		base = top + 1 - tot
+	case "keygaps": // every cell in a key (chunk / bucket) of its own, with unused keys between them
+		for c := range widths {
+			widths[c] = pick(r, []uint64{uint64(st.PerCell[c]) * uint64(1+r.Intn(4)), 64, 4097, 9000, 65536})
+		}
+		keygaps = true
 	case "periodic": // equal widths, equal texture in each cell: AddOffset by multiples of the period
 		periodic = pick(r, []uint64{7, 4096, 65536, 65537, 100000, 1 << 20})
 		mx := 0
@@ -1399,14 +1406,46 @@ func concretise(st Structure, kind string, r *rand.Rand, bits int) (*Concretisat
 			widths[c] = uint64(st.PerCell[c])
 		}
 	}
+	if keygaps {
+		shift := uint(16)
+		kmax := uint64(0xFFFF)
+		if bits == 64 {
+			shift, kmax = 32, 0xFFFFFFFF
+		}
+		gaps = make([]uint64, m)
+		need := uint64(3*m + 3)
+		k := pick(r, []uint64{0, 1, kmax / 2, kmax - need, uint64(r.Int63n(int64(kmax - need)))})
+		pos := uint64(0)
+		for c := range widths {
+			lo := k << shift
+			switch r.Intn(3) {
+			case 1:
+				lo += uint64(r.Intn(1000))
+			case 2: // end exactly at the upper edge of the key
+				if widths[c] <= 1<<16 {
+					lo += (1 << shift) - widths[c]
+				}
+			}
+			if c == 0 {
+				base = lo
+			} else {
+				gaps[c] = lo - pos
+			}
+			pos = lo + widths[c]
+			k = (pos-1)>>shift + 1 + uint64(r.Intn(3)) // the next cell starts in a key after the one holding this cell's last value
+		}
+	}
 	var tot uint64
 	for _, w := range widths {
 		tot += w
 	}
+	for _, g := range gaps {
+		tot += g
+	}
 	if bits == 32 && tot > top {
 		return nil, fmt.Errorf("structure too wide")
 	}
-	if kind != "top" && kind != "chunks" && kind != "keyspread" && kind != "periodic" && r.Intn(2) == 0 {
+	if kind != "top" && kind != "chunks" && kind != "keyspread" && kind != "periodic" && kind != "keygaps" && r.Intn(2) == 0 {
 		// align one cell boundary (start of cell c, 1 <= c <= m) with a chunk edge: the atoms before it end at
 		// low bits 0xFFFF, those after it start at 0x0000
 		c := 1 + r.Intn(m)
@@ -1419,7 +1458,7 @@ func concretise(st Structure, kind string, r *rand.Rand, bits int) (*Concretisat
 			base = k<<16 - before
 		}
 	}
-	if bits == 64 && kind != "top" {
+	if bits == 64 && kind != "top" && kind != "keygaps" {
 		// place the structure relative to the 2^32 grid: inside a bucket, straddling a bucket edge,
 		// in the first or the last bucket
 		bucket := pick(r, []uint64{0, 1, 2, 0x7FFFFFFF, 0x80000000, 0xFFFFFFFE, 0xFFFFFFFF})
@@ -1452,7 +1491,14 @@ func concretise(st Structure, kind string, r *rand.Rand, bits int) (*Concretisat
 	}
 	pos := base
 	var pattern []iset // periodic: texture of the first cell, translated
+	cellIdx := make([]int, 0, m+1)
 	for c := 0; c < m; c++ {
+		if c < len(gaps) && gaps[c] > 0 { // unused space before this cell: a filler cell of its own
+			cellLo = append(cellLo, pos)
+			parts = append(parts, []iset{{span{pos, pos + gaps[c] - 1}}})
+			pos += gaps[c]
+		}
+		cellIdx = append(cellIdx, len(cellLo)+1)
 		cellLo = append(cellLo, pos)
 		hi := pos + widths[c] - 1
 		var ps []iset
@@ -1489,13 +1535,15 @@ func concretise(st Structure, kind string, r *rand.Rand, bits int) (*Concretisat
 		byMin[a.Set.min()] = a.ID
 	}
 	for c := 0; c < m; c++ {
-		for _, p := range parts[c+off] {
+		for _, p := range parts[cellIdx[c]-1] {
 			conc.AtomMap = append(conc.AtomMap, byMin[p.min()])
 		}
 	}
-	for c := 1; c <= m+1; c++ {
-		conc.CellMap = append(conc.CellMap, c+off)
+	for c := 0; c < m; c++ {
+		conc.CellMap = append(conc.CellMap, cellIdx[c])
 	}
+	conc.CellMap = append(conc.CellMap, cellIdx[m-1]+1) // the boundary after the last cell
+	_ = off
 	// offsets
 	var ds []int64
 	if periodic > 0 {
